@@ -686,3 +686,82 @@ func ZZChunkedMixed() {
 	x, y := w.mc.Pending()
 	rt.Assert("c05-backend-connection-drained", w.mc.Starved == 0 && x == 0 && y == 0)
 }
+
+// ZZChunkedFault (C10, chunked backend): a multi-request exchange of the real chunked handler
+// with one backend request answered with an error status, or the backend connection broken
+// before / after / inside that reply. The call terminates (no read that would wait for ever,
+// no crash); if the connection was not broken, it is left in sync: the next command on it is
+// answered correctly; what a get returns is the stored value or a miss.
+func ZZChunkedFault() {
+	kl := rt.Param("keylen", 5)
+	w := zzNewWorld(kl, 0, 0)
+	data, _ := chunkSize(kl)
+	p := int(data)
+	key := zzKey(kl)
+	w.keys = [][]byte{key}
+	n := 1 + rt.Choice("chunks", 3)
+	v := zzValue("v", n*p-1, p)
+	fl := rt.U32("flags")
+	tok := rt.Bytes("tok", tokenSize)
+	zzStore(w.mc, key, v, fl, tok, 0)
+	statuses := []uint16{0x01, 0x02, 0x03, 0x04, 0x05, 0x81, 0x82, 0x84, 0x85, 0x86}
+	w.mc.FaultAt = rt.Choice("fault.at", n+3)
+	w.mc.FaultKind = 1 + rt.Choice("fault.kind", 4)
+	switch w.mc.FaultKind {
+	case model.FaultStatusReply:
+		w.mc.FaultStatus = statuses[rt.Choice("fault.status", len(statuses))]
+	case model.FaultCutReply:
+		w.mc.CutAt = 1 + rt.Choice("fault.cut", 30)
+	}
+	is := func(d []byte, f uint32) bool {
+		return len(d) == len(v) && rt.FixBool(rt.And(rt.BytesEq(d, v), f == fl))
+	}
+	var err error
+	cmd := rt.Choice("cmd", 5)
+	switch cmd {
+	case 0:
+		var res common.GetResponse
+		var cnt int
+		res, cnt, err = zzGetOne(w.h, key, 7)
+		rt.Assert("c10-chunked-get-one-outcome", (err != nil) != (cnt == 1))
+		if err == nil && cnt == 1 {
+			rt.Assert("c10-chunked-get-value-or-miss", res.Miss || is(res.Data, res.Flags))
+		}
+	case 1:
+		var res common.GetResponse
+		res, err = w.h.GAT(common.GATRequest{Key: key, Exptime: rt.U32("ttl")})
+		if err == nil {
+			rt.Assert("c10-chunked-gat-value-or-miss", res.Miss || is(res.Data, res.Flags))
+		}
+	case 2:
+		err = w.h.Delete(common.DeleteRequest{Key: key})
+	case 3:
+		err = w.h.Touch(common.TouchRequest{Key: key, Exptime: rt.U32("ttl")})
+	case 4:
+		err = w.h.Set(common.SetRequest{Key: key, Data: zzValue("nv", 2*p, p), Flags: rt.U32("nflags")})
+	}
+	rt.Reach("call-returned")
+	rt.Assert("c10-chunked-no-wait-for-a-reply-that-never-comes", w.mc.Starved == 0)
+	if w.mc.Faulted {
+		rt.Reach("fault-delivered")
+	}
+	broken := w.mc.Faulted && w.mc.FaultKind != model.FaultStatusReply
+	if !broken && (err == nil || common.IsAppError(err)) {
+		// the connection stays in use (an application error becomes an error reply and the client
+		// carries on): it must be in sync -- nothing pending, and the next command is answered right
+		a, b := w.mc.Pending()
+		rt.Assert("c10-chunked-connection-in-sync-after-fault", a == 0 && b == 0)
+		w.mc.FaultAt = -1
+		other := zzKey(kl)
+		other[0] = 'o'
+		e2 := w.h.Set(common.SetRequest{Key: other, Data: []byte("xy"), Flags: 3})
+		res, cnt, e3 := zzGetOne(w.h, other, 9)
+		served := e2 == nil && e3 == nil && cnt == 1 && !res.Miss && string(res.Data) == "xy" && res.Flags == 3
+		// or the handler noticed that the stream is unusable and gave up on the connection (a
+		// non-application error closes the client connection): contained. Wrong data, an
+		// application-level error for a healthy command, or a hang are not.
+		rt.Logf("follow-up: e2=%v e3=%v cnt=%d miss=%v starved=%d", e2, e3, cnt, res.Miss, w.mc.Starved)
+		gaveUp := (e2 != nil && !common.IsAppError(e2)) || (e2 == nil && e3 != nil && !common.IsAppError(e3))
+		rt.Assert("c10-chunked-next-commands-answered-correctly-or-connection-given-up", (served || gaveUp) && w.mc.Starved == 0)
+	}
+}
